@@ -150,11 +150,15 @@ def listcomp(ex, e, fr, gen=False):
         raise Unsupported("comprehension with more than two generators")
     pure = is_pure_expr(ex, e.elt, fr) and all(is_pure_expr(ex, c, fr) for g in gens for c in g.ifs)
     if pure or fr.spec:
-        snap = (dict(ex.heap), ex.alloc, len(ex.pc), len(ex.obls), dict(fr.locals))
+        snap = (dict(ex.heap), ex.alloc, len(ex.pc), len(ex.obls), dict(fr.locals), list(ex.dec.trace), list(ex.dec.pending))
+        # the (first) iterable is evaluated once, before any binder exists: contract calls in it are ordinary calls
+        it0 = None
+        if not fr.spec and not getattr(ex, "pure_depth", 0) and not fr.bound:
+            it0 = ex.ev(gens[0].iter, fr)
         ex.pure_depth = getattr(ex, "pure_depth", 0) + 1
         try:
             if len(gens) == 1:
-                return comp1(ex, e.elt, gens[0], fr)
+                return comp1(ex, e.elt, gens[0], fr, it0)
             return comp2(ex, e.elt, gens, fr)
         except Impure:
             if fr.spec:
@@ -164,16 +168,15 @@ def listcomp(ex, e, fr, gen=False):
             del ex.obls[snap[3]:]
             fr.locals.clear()
             fr.locals.update(snap[4])
+            ex.dec.trace[:] = snap[5]
+            ex.dec.pending[:] = snap[6]
         finally:
             ex.pure_depth -= 1
     return desugar(ex, e, fr)
 
 
-def comp1(ex, elt, g, fr):
-    src_l = models.as_list(ex, ex.ev(g.iter, fr), fr, g.iter) if not _is_arr_iter(ex, g, fr) else None
-    if src_l is None:
-        from . import npmodels
-        src_l = npmodels.rows_as_list(ex, ex.ev(g.iter, fr), fr)
+def comp1(ex, elt, g, fr, it0=None):
+    src_l = models.as_list(ex, it0 if it0 is not None else ex.ev(g.iter, fr), fr, g.iter)
     n = llen(ex, src_l)
     saved = {k: fr.locals.get(k) for k in target_names(g.target)}
     j = z3.Int(f"cj!{next(ex.cnt)}")
